@@ -266,19 +266,29 @@ Theorem C05_ge_not_lt : forall cf l r o,
 Proof. exact ge_not_lt. Qed.
 Print Assumptions C05_ge_not_lt.
 
-(* what the compiler relies on when it turns "if (a OP b)" into the fused jump of the inverse
-   operator: for non-NaN operands the inverse opcode is the negation ... *)
-Theorem C05_inverse_jump_partial : forall cf op l r o,
+(* a comparison used as a condition - in direct position (loop bottom tests: the fused jump) or
+   in inverted position (if, ?:, loop top tests: == / != through the other one's fused jump,
+   ordering comparisons evaluated and tested with JumpFalse) - enters the guarded code exactly
+   when the comparison is true as an expression.  All operands, NaN included. *)
+Theorem C05_condition_forms_agree : forall cf op l r,
+  cond_direct op cf l r = spec_cmp cf op l r /\ cond_inverted op cf l r = spec_cmp cf op l r.
+Proof. exact condition_forms_agree. Qed.
+Print Assumptions C05_condition_forms_agree.
+
+(* facts about the opcodes (not about a defect): the fused jump of the opposite operator is the
+   negation when no operand is NaN ... *)
+Theorem C05_opposite_jump_is_negation_non_nan : forall cf op l r o,
   ~ nan_operand l -> ~ nan_operand r -> spec_order cf l r = Ok o ->
   exists b, jump_site op cf l r = Ok b /\ jump_site (inv_op op) cf l r = Ok (negb b).
 Proof. exact inverse_jump_is_negation. Qed.
-Print Assumptions C05_inverse_jump_partial.
+Print Assumptions C05_opposite_jump_is_negation_non_nan.
 
-(* ... and with a NaN operand it is not (outside this property's statement, which excludes NaN;
-   reported: "if ($1 < 1)" with $1 = "nan" takes the true branch while ($1 < 1) is 0) *)
-Theorem C05_inverse_jump_nan_refuted :
-  exists cf l r, jump_site OLt cf l r = Ok false /\ jump_site (inv_op OLt) cf l r = Ok false.
-Proof. exists str_fmt6g, (VNumStr [110; 97; 110]), (VNum fone). vm_compute. split; reflexivity. Qed.
+(* ... and is not for a NaN operand (both are false) - which is why the compiler does not fuse a
+   negated ordering comparison into the opposite jump *)
+Theorem C05_opposite_jump_not_negation_for_nan :
+  exists cf l r, jump_site OLt cf l r = Ok false /\ jump_site (inv_op OLt) cf l r = Ok false /\
+                 cond_inverted OLt cf l r = Ok false.
+Proof. exists str_fmt6g, (VNumStr [110; 97; 110]), (VNum fone). vm_compute. repeat split. Qed.
 
 (* string order = bytewise lexicographic, a strict total order *)
 Theorem C05_string_order_lexicographic : forall a b, s_lt a b = true <-> lex_lt a b.
